@@ -20,6 +20,9 @@ def design_and_table(chk, sc, module, cfg, driver, label=None, workers=4, table_
     tpath = os.path.join(sc.dir, "table_%s.json" % (label or module))
     json.dump(tabs[0], open(tpath, "w"))
     r = run_py(sc, ["-m", driver, "table", tpath] + list(table_args), timeout=timeout)
+    if r.returncode != 0 and _is_machinery(r.stderr):
+        chk.machinery("driver %s failed to start: %s" % (driver, r.stderr[-800:]))
+        return tabs[0]
     if r.returncode != 0:
         chk.violation("replay:exception", "real code raised while replaying the %s.tla table" % module, r.stderr[-3000:])
         return tabs[0]
@@ -34,6 +37,9 @@ def design_and_table(chk, sc, module, cfg, driver, label=None, workers=4, table_
 def key_trace(chk, sc, module, driver, idx, args, keyfn=None, timeout=1200):
     tr = os.path.join(sc.dir, "%s_%d.ndjson" % (module, idx))
     g = run_py(sc, ["-m", driver, "trace"] + [str(a) for a in args] + [tr], timeout=timeout)
+    if g.returncode != 0 and _is_machinery(g.stderr):
+        chk.machinery("driver %s failed to start: %s" % (driver, g.stderr[-800:]))
+        return
     if g.returncode != 0:
         chk.violation("trace:exception", "real code raised during boundary evaluation (%s)" % driver, g.stderr[-3000:])
         return
@@ -54,3 +60,8 @@ def key_trace(chk, sc, module, driver, idx, args, keyfn=None, timeout=1200):
         key = keyfn(rec, clause) if keyfn else "trace:" + clause
         chk.violation(key, "real code, trace line %d: %s" % (line, clause), rec)
     return total
+
+
+def _is_machinery(stderr):
+    last = [x for x in stderr.strip().splitlines() if x.strip()][-1:] or [""]
+    return last[0].startswith(("ImportError", "ModuleNotFoundError", "SyntaxError", "IndentationError"))
